@@ -3,7 +3,10 @@
 import os, sys, tempfile, time, collections
 HERE = os.path.dirname(os.path.dirname(os.path.abspath(__file__)))
 sys.path.insert(0, HERE)
-os.environ.setdefault('VERIF_SCRATCH', tempfile.mkdtemp(prefix='dbg-'))
+_d = tempfile.mkdtemp(prefix='dbg-')
+os.environ.setdefault('VERIF_SCRATCH', _d)
+import atexit, shutil
+atexit.register(shutil.rmtree, _d, True)
 from sim.install import install
 install()
 from sim import props
